@@ -78,6 +78,10 @@ def sliver_case(tier):
     return random_case(tier, modes=("sliver", "sliver", "frac", "whole-interval", "to-measure-line"))
 
 
+def tie_case(tier):
+    return random_case(tier, modes=("tie", "frac", "frac", "whole-interval", "to-measure-line"))
+
+
 @st.composite
 def random_case(draw, tier, modes=("frac", "frac", "whole-interval", "to-measure-line")):
     MODES = list(modes)
@@ -95,6 +99,8 @@ def random_case(draw, tier, modes=("frac", "frac", "whole-interval", "to-measure
             else:
                 line = pos[-1] // 1 + draw(st.integers(1, 7))
             pos.append(line + eps)
+        elif mode == "tie":
+            pos.append(pos[-1])  # two changes at one position (the later one wins from there on)
         elif mode == "whole-interval":
             pos.append(pos[-1] + 4 * draw(st.integers(1, 3)))
         elif mode == "to-measure-line":
@@ -122,6 +128,8 @@ def check(case, ctx):
     init = float(case["init"]) if entry != "list" else 0.0
     t_in = _integrate(init, inp)
     off_measure = any(p % met != 0 for p in pos)
+    ties = any(a == b for a, b in zip(pos, pos[1:]))  # two changes at one position: the later one wins from there on
+    ctx.label("tie", ties)
     ctx.nt(off_measure)
     ctx.label("entry=" + entry)
     ctx.label("off-measure", off_measure)
@@ -141,7 +149,7 @@ def check(case, ctx):
             if r[3] != 0:
                 ctx.fail("not-on-measure", f"{r}")
         ms = [r[2] for r in out]
-        if any(b <= a for a, b in zip(ms, ms[1:])):
+        if any((b < a) if ties else (b <= a) for a, b in zip(ms, ms[1:])):
             ctx.fail("measure-order", f"{ms}")
         if out and (out[0][2] != 0):
             ctx.fail("first-not-measure-0", f"{out[0]}")
@@ -159,7 +167,7 @@ def check(case, ctx):
         for (b, m, me, be), t in zip(out, t_out):
             if be != 0:
                 ctx.fail("not-on-measure", f"{(b, m, me, be)} at {t}")
-        if any(b <= a for a, b in zip(t_out, t_out[1:])):
+        if any((b < a) if ties else (b <= a) for a, b in zip(t_out, t_out[1:])):
             ctx.fail("time-order", f"{t_out}")
         # the snap view and the offset view of the result must agree
         t_chk = _integrate(t_out[0], out)
@@ -184,6 +192,8 @@ def check(case, ctx):
             ctx.fail("more-than-one-insert", f"interval {i} [{lo},{hi}] has {inside}")
     # bpm kept where a whole number of measures follows (or it is the last change)
     for i, b in enumerate(bp):
+        if i + 1 < len(bp) and pos[i + 1] == pos[i]:
+            continue  # superseded at once by the next change at the same position
         if i == len(bp) - 1 or ((pos[i + 1] - pos[i]) % met == 0):
             got = _bpm_at(out, t_out, t_in[i])
             if got is None or abs(got - b) > 1e-6 * b:
@@ -232,6 +242,7 @@ KNOWN_PREDICATES = {"beat_sliver_time_lost": _beat_sliver_time_lost}
 SUBS = [
     Sub("exhaustive-halfbeat", check, enumerate=enum_cases, shards={"quick": 8, "thorough": 16}, exhaustive=True),
     Sub("random", check, strategy=random_case, examples={"quick": 2500, "thorough": 12000}, shards={"quick": 8, "thorough": 16}),
+    Sub("tie", check, strategy=tie_case, examples={"quick": 1200, "thorough": 6000}, shards={"quick": 4, "thorough": 16}),
     Sub("sliver", check, strategy=sliver_case, examples={"quick": 2000, "thorough": 8000}, shards={"quick": 8, "thorough": 16}),
 ]
 
